@@ -1,5 +1,7 @@
 import SamplyModel.Proto
 import SamplyModel.Model.PanicKernels
+import SamplyModel.Model.BreakpadServe
+import SamplyModel.Model.JsonText
 /-!
 Line protocol for C08. A case is a list of operations; every operation yields exactly one output line.
 
@@ -17,9 +19,28 @@ Kernel operations (the model predicts the value; byte strings are hex, `-` = emp
     bpline <a> <s> <line> <file> <addr>  → line <n|none> | none | panic
     bpinline <depth> <a> <s> <addr> → frames <n> | none | panic
 
+    bpmap <sym> <symindex> <addr>*  → served unparsed | served notbreakpad
+                                      | served <look> ; <look> ; …      one `.sym` text served with a stored index
+                                        (valid / stale / corrupted), lookups on ONE symbol map (`BPC.serve`);
+                                        <look> = none | panic
+                                               | sym <addr> <size|none> <name> <n|none> [, frame <fn|none> <file|none> <line|none>]*
+                                        an address `iter` = `iter_symbols()` collected at that point:
+                                               iter <n> <addr>:<name>,… | iter panic   (`BPC.serveSession`)
+
+    errjson <msg>                   → json <text>      `json!({"error": msg}).to_string()` = `JT.errorJson msg`
+    badurl <path>                   → json <text> | known-path      `Api::query_api(path, "{}")` for a path that is
+                                        none of the three endpoints = `JT.errorJson ("Unrecognized URL " ++ path)`
+    apiresp <path> <body> <resp>    → resp <text>      the response text itself; `<resp>` = what the same call
+                                        returned when the case was generated (the model echoes it: determinism);
+                                        the judge runs the independent recogniser `JT.acceptable path text` on
+                                        the implementation's line (clauses (a), (b))
+
 Exploration operations (third-party parsers in the loop; the model only states the property: the call
-returns): `file …` → `set`; `api <path> <body>`, `lookup …`, `symcreate …`, `debugid …` → `fine`.
-The implementation prints `panic`, `hang`, `badjson`, `notobject` when the property is violated.
+returns): `file …` → `set`; `api <path> <body>`, `lookup …`, `symcreate …`, `debugid …`, `bigsym …` → `fine`
+(`debugid <s>` with `s` a non-empty string of hex digits → `id-ok | id-err`, predicted by `BP.debugIdOk`).
+The implementation prints `panic`, `hang`, `badjson`, `notobject`, `badshape <why>`, `short-listing …`,
+`neg-offset`, `empty-frames`, `slow …` when the property is violated; the runner prints `crash:<how>` for a
+case whose child process died (stack overflow, out of memory, abort).
 -/
 namespace C08
 open PK Proto
@@ -57,6 +78,30 @@ def showPath : MappedPathV → String
   | .s3 a b c => s!"ok s3 {bytesHex a} {bytesHex b} {bytesHex c}"
   | .cargo a b c d => s!"ok cargo {bytesHex a} {bytesHex b} {bytesHex c} {bytesHex d}"
 
+def optHex : Option (List UInt8) → String
+  | none => "none"
+  | some b => bytesHex b
+
+def showLook : BP.Look → String
+  | .panic => "panic"
+  | .none => "none"
+  | .found r =>
+    let n := match r.frames with | none => "none" | some fs => toString fs.length
+    let frs := (r.frames.getD []).map fun f => s!" , frame {optHex f.function} {optHex f.file} {optNat f.line}"
+    s!"sym {r.symAddr} {optNat r.size} {bytesHex r.name} {n}" ++ String.join frs
+
+def showServed : BPC.Served → String
+  | .unparsed => "served unparsed"
+  | .notBreakpad => "served notbreakpad"
+  | .looks ls => "served " ++ " ; ".intercalate (ls.map showLook)
+  | .session pre names post =>
+    let it := match names with
+      | none => "iter panic"
+      | some ns =>
+        if ns.isEmpty then "iter 0"
+        else s!"iter {ns.length} " ++ ",".intercalate (ns.map fun p => s!"{p.1}:{bytesHex p.2}")
+    "served " ++ " ; ".intercalate (pre.map showLook ++ [it] ++ post.map showLook)
+
 def modelOp (l : String) : String :=
   match words l with
   | ["codeid", s] => render (codeIdFromStr (hexBytes s)) showCodeId (fun _ => "err")
@@ -64,7 +109,20 @@ def modelOp (l : String) : String :=
   | ["elfbuildid", s] => render (elfBuildIdFromStr (hexBytes s)) (fun bs => s!"ok {natsHex bs}") (fun _ => "err")
   | ["specialpath", s] => render (specialPath (hexBytes s)) showPath (fun _ => "err")
   | ["symindex", ok, d] =>
-    render (parseSymindex (hexBytes d) (ok == "1"))
+    -- the panic kernel (error kinds; module-info parse = oracle bit) and, independently of that bit, the
+    -- byte-exact parser of `Model/BreakpadIndex.lean` (module-info parse modelled) must agree on acceptance
+    -- and on the four counts
+    let bs := hexBytes d
+    let r := parseSymindex bs (ok == "1")
+    let agree : Bool := match r, BP.parseSymindex bs with
+      | .ok i, some ix => i.moduleInfoLen == ix.moduleInfo.length && i.files == ix.files.length
+          && i.inlineOrigins == ix.origins.length && i.symbols == ix.addrs.length
+      | .ok _, none => false
+      | .err _, none => true
+      | .err _, some _ => false
+      | .panic, _ => true
+    if !agree then "models-disagree" else
+    render r
       (fun i => s!"ok {i.moduleInfoLen} {i.files} {i.inlineOrigins} {i.symbols}")
       (fun e => s!"err {showErrKind e}")
   | ["asmreq", a, b] =>
@@ -85,11 +143,29 @@ def modelOp (l : String) : String :=
   | ["bpinline", d, a, s, addr] =>
     render (bpInline (hexBytes d) (hexBytes a) (hexBytes s) (nat! addr))
       (fun o => match o with | some n => s!"frames {n}" | none => "none") (fun _ => "err")
+  | "bpmap" :: t :: i :: addrs =>
+    if addrs.contains "iter" then
+      showServed (BPC.serveSession (hexBytes t) (hexBytes i) ((addrs.takeWhile (· != "iter")).map nat!)
+        (((addrs.dropWhile (· != "iter")).drop 1).map nat!))
+    else showServed (BPC.serve (hexBytes t) (hexBytes i) (addrs.map nat!))
+  | ["errjson", m] => s!"json {bytesHex (JT.errorJson (hexBytes m))}"
+  | ["badurl", p] =>
+    match JT.dispatch (hexBytes p) with
+    | some _ => "known-path"
+    | none => s!"json {bytesHex (JT.queryApiText (hexBytes p) (fun _ => .ok []))}"
+  | ["apiresp", _, _, r] => s!"resp {r}"
   | "file" :: _ => "set"
   | "api" :: _ => "fine"
   | "lookup" :: _ => "fine"
   | "symcreate" :: _ => "fine"
+  | ["debugid", s] =>
+    -- for a non-empty string of hex digits the outcome of the third-party `DebugId::from_breakpad` is modelled
+    -- (`BP.debugIdOk`, the model the module-info parse of `.symindex` files relies on); otherwise only "returns"
+    let bs := hexBytes s
+    if !bs.isEmpty && bs.all (fun b => (BP.hexVal b).isSome) then (if BP.debugIdOk bs then "id-ok" else "id-err")
+    else "fine"
   | "debugid" :: _ => "fine"
+  | "bigsym" :: _ => "fine"
   | _ => "bad-op"
 
 def model (ls : List String) : List String := ls.map modelOp
@@ -108,12 +184,22 @@ def judge (ops impl : List String) : Bool × String :=
       let kind := opKind o
       let w := words r
       if w.isEmpty then (false, s!"[empty] op {k} ({kind}): no outcome") else
+      if r.startsWith "crash:" then (false, s!"[crash] op {k} ({kind}): the process running the case died ({r})") else
       if w.contains "panic" then (false, s!"[panic] op {k} ({kind}): the implementation panicked") else
       if w.contains "hang" then (false, s!"[hang] op {k} ({kind}): no answer within the watchdog time") else
       if w.head? = some "badjson" then (false, s!"[badjson] op {k} ({kind}): response is not valid JSON") else
       if w.head? = some "notobject" then (false, s!"[notobject] op {k} ({kind}): response is not a JSON object") else
+      if w.head? = some "badshape" then (false, s!"[badshape] op {k} ({kind}): response is neither a result of the endpoint nor an object with an error message ({r})") else
+      if w.head? = some "short-listing" then (false, s!"[short-listing] op {k} ({kind}): /asm/v1 listed fewer bytes than requested and available ({r})") else
+      if w.head? = some "slow" then (false, s!"[slow] op {k} ({kind}): time far beyond n log n for the input size ({r})") else
       if w.head? = some "bad-op" then (false, s!"[bad-op] op {k} ({kind}): harness did not understand the operation") else
-      if (kind == "api" || kind == "lookup" || kind == "symcreate" || kind == "debugid") && r ≠ "fine" then
+      if kind == "apiresp" && !(match words o, w with
+          | [_, p, _, _], ["resp", t] => JT.acceptable (hexBytes p) (hexBytes t)
+          | _, _ => false) then
+        (false, s!"[not-json-response] op {k} ({kind}): the response text is not a JSON object that is a result of the endpoint or carries an error message (RFC 8259 recogniser)")
+      else
+      if kind == "debugid" && (r == "id-ok" || r == "id-err") then go (k + 1) os rs else
+      if (kind == "api" || kind == "lookup" || kind == "symcreate" || kind == "debugid" || kind == "bigsym") && r ≠ "fine" then
         (false, s!"[unexpected] op {k} ({kind}): outcome {r}")
       else go (k + 1) os rs
     | _, _ => (false, s!"[count] {ops.length} operations but {impl.length} outcomes (a call did not return)")
